@@ -39,6 +39,7 @@ type AType struct {
 	Pmethods []string `json:"pmethods"`
 	Decl     string   `json:"decl"` // Go text of the declaration body (rendering)
 	NoOwnMethods bool `json:"noown"` // methods are promoted from an embedded struct: none is rendered
+	TParams  string   `json:"tparams,omitempty"` // rendering: type parameter list of a generic declaration
 }
 
 type UnionObs struct {
@@ -134,6 +135,17 @@ func compose(n int, rootCore, subCore coreT, rng *rand.Rand) Case {
 		if t.Pkg == root && t.Kind == "struct" && t.Name != "Cross" {
 			c.Types = append(c.Types, AType{Key: root + ".Promo", Pkg: root, Name: "Promo", Kind: "struct", Decl: "struct {\n\t" + t.Name + "\n\tExtra int\n}",
 				Vmethods: append([]string{}, t.Vmethods...), Pmethods: append([]string{}, t.Pmethods...), NoOwnMethods: true})
+			break
+		}
+	}
+	// a generic type is a named type like any other: it is a member under its declared name, and sorts by that name
+	// (Cat < CatNap, whereas the printed forms sort "CatNap" before "Cat[T any]")
+	for _, t := range c.Types {
+		if t.Pkg == root && len(t.Vmethods) > 0 && !t.NoOwnMethods && t.Name != "Cross" {
+			g := t.Name + "y"
+			c.Types = append(c.Types,
+				AType{Key: root + "." + g + "[T any]", Pkg: root, Name: g, Kind: "struct", Decl: "struct{ V int }", TParams: "[T any]", Vmethods: append([]string{}, t.Vmethods...), Pmethods: []string{}},
+				AType{Key: root + "." + g + "Nap", Pkg: root, Name: g + "Nap", Kind: "struct", Decl: "struct{ V int }", Vmethods: append([]string{}, t.Vmethods...), Pmethods: []string{}})
 			break
 		}
 	}
@@ -249,16 +261,20 @@ func render(c *Case) map[string]string {
 		if t.Pkg == sub {
 			w = &subf
 		}
-		fmt.Fprintf(w, "type %s %s\n\n", t.Name, t.Decl)
-		if (c.Case+k)%3 == 0 {
+		fmt.Fprintf(w, "type %s%s %s\n\n", t.Name, t.TParams, t.Decl)
+		if (c.Case+k)%3 == 0 && t.TParams == "" {
 			// an alias of a (possible) member type is not a type of its own: the member list must not change
 			fmt.Fprintf(w, "type %s%d = %s\n\n", []string{"Aa", "Zz"}[(c.Case/3)%2], k, t.Name)
 		}
 		if t.NoOwnMethods {
 			continue
 		}
+		recv := t.Name
+		if t.TParams != "" {
+			recv += "[T]"
+		}
 		for _, m := range t.Vmethods {
-			fmt.Fprintf(w, "func (%s) %s() {}\n", t.Name, m)
+			fmt.Fprintf(w, "func (%s) %s() {}\n", recv, m)
 		}
 		for _, m := range t.Pmethods {
 			fmt.Fprintf(w, "func (*%s) %s() {}\n", t.Name, m)
